@@ -107,7 +107,8 @@ def _check_stats(res, label, x, y_orig, ec, got, feats):
     # --- centre of mass
     total = math.fsum(y)
     com = got.get("com")
-    if total == 0 or abs(total) <= 1e-13 * math.fsum(abs(v) for v in y):
+    # zero weight up to the precision to which the evaluated y is known (background subtraction cancels)
+    if total == 0 or abs(total) <= n * tol_y or abs(total) <= 1e-13 * math.fsum(abs(v) for v in y):
         res.classes.append(f"{label}:com-undefined(zero-weight)")
     else:
         try:
